@@ -8,6 +8,7 @@ from ..frontend import AnchorMissing
 from ..poly import Poly, all_atoms, poly_syms, deep_subs
 
 MRP = "cyecca.estimate.attitude.algorithms.mrp"
+EST_REL = "cyecca/estimate/attitude/estimator.py"
 SIM = "cyecca.estimate.attitude.algorithms.sim"
 
 
@@ -332,6 +333,20 @@ def check_schedule(w, rep):
             rep.incomplete("C12.schedule", inst, o.msg, where=(o.file, o.line))
         else:
             rep.na("C12.schedule", inst, "gate is permissive (C20's concern), the correction still runs: %s" % o.msg)
+    # ... and every IMU sample with a positive step must reach predict (a dropped sample loses its rotation increment)
+    for o in scratch.obs:
+        if o.rule == "C20.est-predict-dt":
+            inst = o.instance.replace("AttitudeEstimator.imu_callback predict", "every IMU sample with dt > 0 is propagated: imu_callback predict")
+            skipped = (o.fact or {}).get("skips_positive_steps_up_to", 0) if isinstance(o.fact, dict) else 0
+            if o.status == "ok" and skipped:
+                rep.fail("C12.schedule", inst, "IMU samples with 0 < dt <= %g are skipped (guard %s) although their time stamp is consumed: at a sensor period at or below that value the rotation "
+                         "increments are lost and the estimate cannot follow the vehicle" % (skipped, o.fact.get("guard")), where=(EST_REL, 1))
+            elif o.status == "ok":
+                rep.ok("C12.schedule", inst, fact=o.fact)
+            elif o.status == "fail":
+                rep.fail("C12.schedule", inst, o.msg, where=(o.file, o.line))
+            elif o.status == "incomplete":
+                rep.incomplete("C12.schedule", inst, o.msg, where=(o.file, o.line))
     rep.floor("C12.schedule", 2)
 
 
